@@ -187,6 +187,13 @@ class SymEnum:
         ex.notes = outer_ctx.notes
         ex.pending = [[]]
         base_pc = list(outer_ctx.pc)
+        # the variables of the enclosing functions as they are BEFORE the loop: an in-place update inside the body (an item
+        # assignment at the generic index) re-binds every holder of the array, but the pointwise rule needs the pre-loop
+        # value to merge with -- the enclosing tables are restored after each explored path of the body
+        chain, p_ = [], env
+        while isinstance(p_, Env):
+            chain.append((p_, dict(p_.vars)))
+            p_ = p_.parent
         while ex.pending:
             dec = ex.pending.pop()
             ctx = PathCtx(dec, ex)
@@ -211,6 +218,12 @@ class SymEnum:
                 raise Undecided("raise inside a loop over a symbolic sequence")
             finally:
                 interp.ctx = outer_ctx
+                for e_, snap in chain:
+                    for k_, v_ in snap.items():
+                        if e_.vars.get(k_) is not v_:
+                            # (re-bound by an in-place update of the body: the new value is the body's result for it)
+                            child.vars.setdefault(k_, e_.vars.get(k_))
+                            e_.vars[k_] = v_
             outer_ctx.obligations.extend(ctx.obligations)
             # branch conditions of the body select the merged value; facts assumed in the body (definitional
             # facts of theory symbols) are exported to the enclosing path, guarded by the branches before them
@@ -245,7 +258,9 @@ class SymEnum:
                     new = vars_[name]
                     cond = V(z3.And(*local_pc) if local_pc else z3.BoolVal(True), (sp,))
                     merged = ite(cond, V(new.t, old.axes, old.series, new.nan, new.inf), merged)
+            aliases = interp.holders_of(old, stmt.lineno)
             _rebind(env, name, merged)
+            interp.rebind_holders(aliases, old, merged)
 
 
 def _rebind(env, name, val):
